@@ -90,6 +90,19 @@ PreVerdict(tx, ts, R) ==
   ELSE IF (tx.authfrom >= 0 /\ ts < tx.authfrom) \/ (tx.authto >= 0 /\ ts > tx.authto) THEN "auth-not-activated"
   ELSE ""
 
+(* every reason for which tx is not executable at ts: the statement fixes WHETHER a transaction is executable, not which
+   of several applicable reasons an implementation reports first (the order of independent checks is free) *)
+PreVerdictSet(tx, ts, R) ==
+     (IF tx.wrongcid THEN {"chainid"} ELSE {})
+  \cup (IF tx.expiry % 1000 # 0 THEN {"expiry-misaligned"} ELSE {})
+  \cup (IF tx.expiry < ts THEN {"expired"} ELSE {})
+  \cup (IF tx.expiry > ts + R.window THEN {"expiry-future"} ELSE {})
+  \cup (IF Len(tx.actions) > R.maxactions THEN {"too-many-actions"} ELSE {})
+  \cup (IF \E i \in DOMAIN tx.actions :
+            \/ (tx.actions[i].start >= 0 /\ ts < tx.actions[i].start)
+            \/ (tx.actions[i].end >= 0 /\ ts > tx.actions[i].end) THEN {"action-not-activated"} ELSE {})
+  \cup (IF (tx.authfrom >= 0 /\ ts < tx.authfrom) \/ (tx.authto >= 0 /\ ts > tx.authto) THEN {"auth-not-activated"} ELSE {})
+
 (* ---------------------------------------------------------------- C03: one transaction *)
 RunTx(st, tx, prices, R, ts) ==
   LET units == Units(tx, R)
@@ -136,7 +149,7 @@ RunBlockWith(st, hdr, txs, prices, R, pd) ==
       over == UnitsOverflow(txs, 1, R, R.maxunits, Zero5)
       f    == Fold(st, txs, 1, prices, R, hdr.ts, <<>>, Zero5)
       sig  == \E i \in DOMAIN txs : txs[i].badsig
-      static == {PreVerdict(txs[i], hdr.ts, R) : i \in DOMAIN txs} \ {""}
+      static == UNION {PreVerdictSet(txs[i], hdr.ts, R) : i \in DOMAIN txs}
       classes == hv \cup (IF over THEN {"units"} ELSE {}) \cup (IF f.err # "" THEN {f.err} ELSE {})
                     \cup (IF sig THEN {"signature"} ELSE {})
   IN [valid   |-> classes = {},
